@@ -18,7 +18,7 @@ func init() {
 		Explanation: "Decides the structural mechanism, not the behaviour: R1 every call of RuleGroup.Eval(P) is dominated by guards RuleEngine!=Off and, for P in 1..4, interruption==nil and lastPhase<=P-1 (==P-1 for body phases), with no possible writer of those fields between guard and call (dominator facts + interval domain + may-write sets over the VTA call graph); " +
 			"R2 the interruption fields are stored only by Transaction.Interrupt (under exactly the matching engine mode and no other condition, first-wins in both modes: a recorded interruption is never replaced) and reset in newTransaction (who-may-write over the whole module); R2 also: state parsed from rule text at run time (ctl:ruleEngine and the other ctl settings) is stored only from a successfully parsed value (store dominated by err == nil, or the error branch leaves the function); R3 in Eval every path to Rule.Evaluate passes the interruption test of the current iteration; " +
 			"R4 lastPhase is written only by Eval(=phase) and newTransaction(=0); R5 each disruptive action builds its Interruption from r.ID()/ParentID() fallback, r.Status() with its documented default/whitelist, and an Action string equal to its registered name; " +
-			"R8 every return of the four Process* phase calls yields tx.interruption, or nil only under a still-valid interruption==nil / engine-Off guard; R6 coraza.NewWAF forces ProcessPartial for both body limit actions on every DetectionOnly path before Validate; R7 the action parser replaces rather than appends a second disruptive action. R2 also: a number parsed from ctl text is handed to the engine (RemoveRuleByID and friends) only on paths where its parse error is nil.",
+			"R8 every return of the four Process* phase calls yields tx.interruption, or nil only under a still-valid interruption==nil / engine-Off guard; R6 coraza.NewWAF forces ProcessPartial for both body limit actions on every DetectionOnly path before Validate; R7 the action parser replaces rather than appends a second disruptive action. R2 also: a number parsed from ctl text is handed to the engine (RemoveRuleByID and friends) only on paths where its parse error is nil. R5 also: deny, drop and redirect reach tx.Interrupt on every path of Evaluate (whether it interrupts or is only remembered under DetectionOnly is Interrupt's decision).",
 		NotDecided: []string{
 			"which rule is first for a given request (data dependent)",
 			"semantics of status codes / redirect targets beyond field provenance",
